@@ -288,6 +288,17 @@ def check_ladder(chk, key, r, st_, calls, file):
                  'dispatch; it must be sampled after the first (PC high byte) and before the second (PC low byte)'
                  % sorted(w + 1 for w in which), file, None)
         return
+    # the acknowledge is the last word on IF: a store to IF that is followed by a bus write of the dispatch can be
+    # overwritten by it (the push lands on 0xFF0F when SP = 0xFF11 / 0xFF10), so that the serviced source stays requested
+    evs = r.state.events
+    bus = [i for i, e in enumerate(evs) if e[0] == 'call' and e[1] == WB]
+    ifs = [i for i, e in enumerate(evs) if e[0] == 'store' and e[1] == 'core' and
+           '.'.join(str(x[1]) for x in e[2]).endswith('interrupt_flag.0')]
+    if ifs and bus and min(ifs) < max(bus):
+        chk.fail('C07.4', key, 'IF is acknowledged before bus write %d of the dispatch: a push that lands on 0xFF0F '
+                 'overwrites the cleared bit; the SM83 clears the IF bit after both bytes of PC have been pushed'
+                 % (1 + len([b for b in bus if b < min(ifs)])), file, None)
+        return
     # find the and(IF', IE') term inside the decision
     pend = find_and(resample)
     if pend is None:
